@@ -1,12 +1,5 @@
 import PsutilModel.Props.C10
 #print axioms Psutil.C10.cfg_good
-#print axioms Psutil.C10.get_set_same
-#print axioms Psutil.C10.get_set_other
-#print axioms Psutil.C10.slot_good
-#print axioms Psutil.C10.widthMismatch_false
-#print axioms Psutil.C10.step_inv
-#print axioms Psutil.C10.runAll_inv
-#print axioms Psutil.C10.init_inv
 #print axioms Psutil.C10.C10_refines
 #print axioms Psutil.C10.C10_empty_none
 #print axioms Psutil.C10.C10_nowrap_false_raw
